@@ -30,7 +30,12 @@ fn styled_doc(rng: &mut Rng) -> String {
 
 fn doc(rng: &mut Rng) -> String {
     if rng.chance(1, 4) { return styled_doc(rng); }
-    match rng.below(6) {
+    match rng.below(8) {
+        // failures that are only found while the output is being WRITTEN (a character XML cannot contain,
+        // held raw in an attribute or in text) and failures found by the reader - every front-end, in every
+        // input / output mode, must report them alike
+        6 => format!("<svg><rect wh=\"{} 2\" text=\"bell\u{7}rung\"/><circle r=\"2\"/></svg>", 2 + rng.below(9)),
+        7 => (*rng.pick(&["<svg><text xy=\"1 1\">x\u{1}y</text></svg>", "<svg><rect wh=\"3\" data-a=\"p&#2;q\"/></svg>", "<svg><g>tail \u{fffe}</g></svg>"])).to_string(),
         0 | 1 => xmlgen::svgdx_doc(rng, true),
         2 => xmlgen::real_svg_doc(rng),
         3 => format!("<svg><rect xy=\"{{{{randint(0, 50)}}}} {{{{random() * 9}}}}\" wh=\"{} 3\" class=\"d-fill-red d-grid-5\" text=\"r\"/><circle cxy=\"^|h 2\" r=\"2\"/></svg>", 1 + rng.below(9)),
